@@ -554,6 +554,9 @@ struct Gen<'r> {
     pending: Vec<Stmt>,
     stmt_counter: usize,
     cur_stmt: usize,
+    /// per-program suffix of generated names: a long-running process meets thousands of
+    /// distinct identifiers
+    name_tag: String,
 }
 
 const ATTR_NAMES: &[&str] = &["name", "kind", "w", "tag", "pos", "val", "k1", "k2", "label"];
@@ -572,7 +575,7 @@ const REGEXES: &[(&str, usize)] = &[
 impl<'r> Gen<'r> {
     fn fresh(&mut self, p: &str) -> String {
         self.counter += 1;
-        format!("{}{}", p, self.counter)
+        format!("{}{}{}", p, self.counter, self.name_tag)
     }
 
     fn tick(&mut self, e: Expr) -> Expr {
@@ -898,7 +901,7 @@ impl<'r> Gen<'r> {
     fn attr_name(&mut self) -> String {
         if self.r.chance(1, 3) {
             self.attr_counter += 1;
-            format!("u{}", self.attr_counter)
+            format!("u{}{}", self.attr_counter, self.name_tag)
         } else {
             self.r.pick(ATTR_NAMES).to_string()
         }
@@ -910,13 +913,13 @@ impl<'r> Gen<'r> {
         for _ in 0..n {
             let mut name = if fresh_names {
                 self.attr_counter += 1;
-                format!("u{}", self.attr_counter)
+                format!("u{}{}", self.attr_counter, self.name_tag)
             } else {
                 self.attr_name()
             };
             if out.iter().any(|a| a.0 == name) {
                 self.attr_counter += 1;
-                name = format!("u{}", self.attr_counter);
+                name = format!("u{}{}", self.attr_counter, self.name_tag);
             }
             if !self.shorthands.is_empty() && self.r.chance(1, 6) && self.syn_available() {
                 let sh = self.r.pick(&self.shorthands).clone();
@@ -1274,7 +1277,12 @@ pub fn gen_program(r: &mut Rng, cfg: &GenCfg) -> Generated {
         pending: Vec::new(),
         stmt_counter: 0,
         cur_stmt: 0,
+        name_tag: String::new(),
     };
+    if g.r.chance(3, 4) {
+        let letters = b"abcdefghijklmnopqrstuvwxyz";
+        g.name_tag = (0..3).map(|_| letters[g.r.below(26)] as char).collect();
+    }
     let mut prog = Prog::default();
     let mut needed: Vec<(String, &'static str)> = Vec::new();
 
